@@ -78,18 +78,24 @@ class LoanManager:
         interest.prune()
         collateral = self._collateral_by_loan[loan_id]
 
-        # Update balances.
+        # Update balances. The loan is closed first so the interest that is being paid is not counted as still
+        # outstanding when the update gets validated (i.e. when checking the margin level). If the update fails the
+        # loan is reopened.
         balance_updates = ValueMap({loan.borrowed_symbol: -loan.borrowed_amount})
         balance_updates -= interest
-        self._ctx.account_balances.update(
-            balance_updates=balance_updates,
-            borrowed_updates={loan.borrowed_symbol: -loan.borrowed_amount},
-            hold_updates={symbol: -amount for symbol, amount in collateral.items()}
-        )
-
-        # Close the loan now that balance updates succeeded.
-        loan.add_paid_interest(interest)
         loan.close()
+        try:
+            self._ctx.account_balances.update(
+                balance_updates=balance_updates,
+                borrowed_updates={loan.borrowed_symbol: -loan.borrowed_amount},
+                hold_updates={symbol: -amount for symbol, amount in collateral.items()}
+            )
+        except Exception:
+            loan.reopen()
+            raise
+
+        # The loan stays closed now that balance updates succeeded.
+        loan.add_paid_interest(interest)
         self._collateral_by_loan.pop(loan_id)
 
     def cancel_loan(self, loan_id: str):
